@@ -109,3 +109,17 @@ CHECKS['C01'] = dict(title='Command-line values reach their typed destinations, 
     rule='configuration x subset of arguments x values (odometer) x surface forms (odometer over per-use spellings + flag grouping) x permutations; states = configurations, transitions = evalArguments calls; non-trivial = configurations',
     bound={'quick': '2 arguments, all kinds/keys, all spellings, both orders', 'thorough': '+ 3 arguments (4 kinds), <=3 spelling deviations in definition order, all 6 orders with <=1 deviation'},
     assumptions=['values beginning with a dash are only spelled attached (= / glued): as a separate word they are keys by definition', 'flag variables start false (an initially-true flag variable is unspecified, see DESIGN appendix A4)'])
+
+_RULES = dict(engine='xenum', harness=['harness/c02_rules.cpp'], flags='asan', lib=True, level='model_checking', build_id='rules', deadline={'quick': 240, 'thorough': 2400}, hang_s=60,
+    technique='bounded-exhaustive enumeration: rule-matrix configurations x ALL abstract lines up to a depth x surface spellings, executed on the real Handler; verdict from an abstract rule evaluator',
+    level_note=_ARGS_NOTE,
+    bound={'quick': 'one rule family per configuration (~130 configurations x abbreviations on/off), all lines of <= 3 uses, spellings with <= 1 deviation',
+           'thorough': 'lines of <= 4 uses, <= 2 deviations, + pairs of rule families on disjoint arguments (lines <= 3 uses), more bystanders'})
+CHECKS['C02'] = dict(_RULES, title='No command line that breaks a declared rule is silently accepted', worker_args=['--opt', 'prop=C02'],
+    level_text='every rule of the matrix x every abstract line of <= 3/4 uses that the evaluator calls invalid, in canonical spelling and every spelling with <= 1/2 deviations, plus surface-level mutations (unknown key, missing value, stray value, forbidden/ambiguous abbreviation): evalArguments must throw',
+    rule='configuration (rule family x destination kinds x key kinds) x sequences of uses over value domains with good/boundary/bad values x spellings; states = configurations, transitions = evalArguments calls; non-trivial = configurations; counters report how often each rule was the broken one',
+    assumptions=['only WHICH lines must be rejected is judged, never the exception type or message', 'lines whose verdict the documentation leaves open are skipped and counted (abstract_lines_unspecified_skipped)'])
+CHECKS['C03'] = dict(_RULES, title='Every command line that obeys the declared rules is accepted', worker_args=['--opt', 'prop=C03'],
+    level_text='every abstract line the evaluator calls valid, for every rule configuration and 3 (thorough 5) bystander variants, in every spelling with <= 1/2 deviations: evalArguments must return and leave the evaluator\'s values',
+    rule='as C02 with the valid lines; bystander variants add unused arguments with own checks/constraints/hidden/deprecated flags and long keys that extend or are prefixes of used keys',
+    assumptions=['order-sensitive rules are judged as documented (excluded argument before its excluder is valid; required partner only before the requirer is unspecified and skipped)'])
